@@ -206,6 +206,35 @@ theorem C03_tb_legacy_frameset_shadows_select_counterexample :
       [(.none, .none), (.none, .none), (.none, .none), (.rawtext, .none)] := by
   decide +kernel
 
+def isTemplateStart : Token → Bool
+  | .start .template _ _ => true
+  | _ => false
+
+/-- (a) on the class of `C03_tb_text_feedback_partial`, for the pre-2025 `select` text -/
+def C03_tb_text_feedback_legacy_statement : Prop :=
+  ∀ (cfg : TagCfg) (evs : List TbEv), (∀ ev ∈ evs, ev.Ok cfg) → (∀ ev ∈ evs, isForeignRoot ev.tok = false) →
+    (∀ ev ∈ evs, isTemplateStart ev.tok = false) → NoFramesetAfterSelect false (evs.map (·.tok)) →
+    ∀ p ∈ joint cfg cfgLegacy (Sim.new true) State.init .data evs, p.2.1 = p.2.2
+
+/-- … which is false: with the old text the guard's `select` tracking is unsound already without templates and
+framesets (`<table><td><select><td><select><xmp>`). The guard matches *neither* version of the standard
+exactly; on template-free input it is sound for the current one (`C03_tb_text_feedback_partial`). -/
+theorem C03_tb_text_feedback_legacy_statement_false : ¬ C03_tb_text_feedback_legacy_statement := by
+  intro h
+  have := h Gen.Tags.cfg ([st .table, st .td, st .select, st .td, st .select, st .xmp].map evOf)
+    (evs_ok _ (by decide)) (by decide) (by decide) (by simp [NoFramesetAfterSelect, evOf, st])
+    (st .xmp, .rawtext, .none) (by decide +kernel)
+  cases this
+
+/-- The class on which the legacy text is conjectured to agree with the strict simulator (not proved; lane `tbs`:
+no divergence on such cases): no `template`, no `frameset`, and none of the table-structure start tags that
+make "in select in table" pop a `select` unseen. -/
+def C03_tb_text_feedback_legacy_conjecture : Prop :=
+  ∀ (cfg : TagCfg) (evs : List TbEv), (∀ ev ∈ evs, ev.Ok cfg) → (∀ ev ∈ evs, isForeignRoot ev.tok = false) →
+    (∀ ev ∈ evs, ∀ n sc a, ev.tok = .start n sc a →
+      n.isIn [.template, .frameset, .table, .caption, .tbody, .tfoot, .thead, .tr, .td, .th] = false) →
+    ∀ p ∈ joint cfg cfgLegacy (Sim.new true) State.init .data evs, p.2.1 = p.2.2
+
 /-- … while with the current `select` parsing the same inputs agree. -/
 example :
     (joint Gen.Tags.cfg cfgStd (Sim.new true) State.init .data
